@@ -17,6 +17,7 @@ EXPLANATION = ("Timestamp formatter tables. R1 (fractional seconds, exhaustive o
                "— the rule that found the pinned tree's defect.")
 NOT_DECIDED = ("Equality with strftime for every instant, zone and sequence (DST, noon/midnight and quarter-hour recalculation, "
                "backwards timestamps): value properties, left to dynamic techniques.")
+EXHAUSTIVE = "the AdditionalSpecifier and format_type enumerators"
 ASSUMPTIONS = []
 TF = "quill::detail::TimestampFormatter"
 SF = "quill::detail::StringFromTime"
